@@ -64,11 +64,20 @@ def run(rep, tier, seed):
             base = random_program(rnd, nstmts=rnd.randint(1, 4), depth=2, probes=False, features={"onekeymaps": True})   # map display order is not settled
             # print what was observed, so that the runs have output to compare
             tail = tail_variants(rnd)
+            # text with CRLF line ends, and string literals that span lines (the language has no escapes: the line end
+            # inside the quotes is part of the string - the same bytes whichever way the text reaches the interpreter)
+            crlf = rnd.random() < 0.25
+            extra = []
+            if rnd.random() < 0.4:
+                brk = "\r\n" if crlf else "\n"
+                txt = rnd.choice(["l1%sl2", "%s", "a%s%sb", "end%s"]).replace("%s", brk)
+                extra = [let("ms", lit(vstr(txt))), obs(call("len", ident("ms"))), obs(bin_("==", ident("ms"), lit(vstr(txt))))]
+            base = base + extra
             prog = [OBS_DECL] + base[2:] + [expr(call("puts", ident("OBS")))] + tail
             args = rnd.choice(ARGVS)
             header = rnd.choice(["", "", "# a script\n", "// a script\n", "# line one\n# line two\n", "// one\n\n// two\n# three\n",
                                  "\n", "#\n#\n", "# trailing blanks   \n\n\n"])
-            jobs.append({"id": i, "prog": prog, "args": args, "model": [OBS_DECL] + base[2:] + tail, "header": header})
+            jobs.append({"id": i, "prog": prog, "args": args, "model": [OBS_DECL] + base[2:] + tail, "header": header, "crlf": crlf})
 
         def runjob(j):
             src, _ = render(j["prog"])
@@ -76,11 +85,13 @@ def run(rep, tier, seed):
             # scripts usually open with comment lines (right under the shebang line when there is one)
             header = j["header"]
             text = header + "puts(argv);\n" + src
+            if j["crlf"]:
+                text = text.replace("\r\n", "\n").replace("\n", "\r\n")
             # line numbers of the annotated program refer to src; the argv line shifts all modes alike
             path = os.path.join(d, "s%d.p2" % j["id"])
             spath = os.path.join(d, "h%d.p2" % j["id"])
-            open(path, "w").write(text)
-            open(spath, "w").write("#!/usr/bin/env p2sh\n" + text)
+            open(path, "w", newline="").write(text)
+            open(spath, "w", newline="").write("#!/usr/bin/env p2sh" + ("\r\n" if j["crlf"] and j["id"] % 2 else "\n") + text)
             posargs = list(j["args"])
             if posargs and posargs[0] == "--":
                 file_cmd = [core.P2SH, path] + posargs
@@ -156,7 +167,7 @@ def run(rep, tier, seed):
             if v["v"] == "bad":
                 argclass = "none" if not j["args"] else ("dashdash" if j["args"][0] == "--" else ("empty" if "" in j["args"] else
                                                                                                  ("unicode" if any(ord(c) > 127 for a in j["args"] for c in a) else "plain")))
-                rep.disagree("cli %s args=%s echo=%s" % (v["why"], argclass, v["echo"]),
+                rep.disagree("cli %s args=%s echo=%s%s" % (v["why"], argclass, v["echo"], " crlf" if j["crlf"] else ""),
                              {"program": render(j["prog"])[0], "args": j["args"],
                               "file": {k: (x.decode("utf8", "replace")[-300:] if isinstance(x, bytes) else x) for k, x in j["file"].items()},
                               "cmd": {k: (x.decode("utf8", "replace")[-300:] if isinstance(x, bytes) else x) for k, x in j["cmd"].items()},
